@@ -346,3 +346,11 @@ package nsqd
 //@   requires n != nil && n.dl != nil && n.dl.f != nil
 //@   ensures[second-call-no-effect] old(n.isExiting) != 0 ==> gMetaCalls == old(gMetaCalls) && gFlocks == old(gFlocks) && gfsRenames == old(gfsRenames)
 //@   ensures[lock-released-once] old(n.isExiting) == 0 ==> gFlockHow == 8 && gFlockFd == wrapI64(gFdOf(n.dl.f))
+//   (round 3, area A; C05 "Exit: stop listeners, persist metadata, close EVERY topic") every topic in the map while the
+//   NSQD lock is held has been closed (Topic.Close; set ghost r3aTopicClosedSet of zz_contracts_kchannel_verif.go)
+//@   ensures[every-topic-closed] old(n.isExiting) == 0 ==> (forall k string :: {atunlock(n.topicMap[k])} atunlock(has(n.topicMap, k)) ==> setin(r3aTopicClosedSet, atunlock(n.topicMap[k])))
+//@   ensures[second-call-closes-nothing] old(n.isExiting) != 0 ==> kTopicFlushes == old(kTopicFlushes) && kBqCloses == old(kBqCloses)
+//@   loop 0
+//@     invariant[first] old(n.isExiting) == 0
+//@     invariant[topics-kept] n.topicMap == atlock(n.topicMap) && (forall k string :: {n.topicMap[k]} (has(n.topicMap, k) <==> atlock(has(n.topicMap, k))) && n.topicMap[k] == atlock(n.topicMap[k]))
+//@     invariant[visited-closed] forall k string :: {n.topicMap[k]} visited(k) ==> setin(r3aTopicClosedSet, n.topicMap[k])
